@@ -67,6 +67,12 @@ impl TW {
             c.set(bf);
             d
         });
+        if nb.len() >= RUNAWAY_BYTES {
+            // the operation delivered megabytes: no step of the specification does that; the event is
+            // logged with an outcome no action accepts and the writer is abandoned
+            self.dead = true;
+            return e.s("res", "runaway").bytes("nb", &nb[..64]).i("delivered", nb.len() as i64);
+        }
         let e = e.res(r).bytes("nb", &nb).i("bfl", bfl as i64);
         match (self.closed, self.w_counter()) {
             (false, Some(c)) => e.i("cnt", c as i64),
